@@ -2156,6 +2156,12 @@ class TextQueryBackend(Backend):
                 ],
                 cond.source,
             )
+            if len(
+                expanded_cond.args
+            ) > 1 and not self.decide_convert_condition_as_in_expression(expanded_cond, state):
+                # Several prefix matches linked with OR stand for the single CIDR value: group them,
+                # the enclosing AND or NOT treats this condition like one field/value expression.
+                return self.convert_condition_group(expanded_cond, state)
             return self.convert_condition(expanded_cond, state)
 
     def convert_condition_field_compare_op_val(
